@@ -881,7 +881,14 @@ func (w *World) mapFind(fr *frame, m *Map, k Value) int {
 		if eq == w.tt.F {
 			continue
 		}
-		if w.hashDerived(ents[i].k) && w.hashDerived(k) {
+		if hk, ck := w.hashDerivedOrConst(ents[i].k); hk || ck {
+			if hk2, ck2 := w.hashDerivedOrConst(k); (hk && (hk2 || ck2)) || (ck && hk2) {
+				w.res.Cuts["hash-derived map keys: collisions between differently derived values excluded"]++
+				w.assumeNoCheck(w.tt.Not(eq))
+				continue
+			}
+		}
+		if false {
 			// random-oracle idealisation: two values derived from hash/cipher outputs (no free
 			// input bits outside hash arguments) are equal only if derived identically
 			w.res.Cuts["hash-derived map keys: collisions between differently derived values excluded"]++
@@ -1266,6 +1273,41 @@ func (w *World) symIndexStr(fr *frame, s Str, idx *Term, it types.Type) *Term {
 // hashDerived: v is a string/bytes value every bit of which comes out of an
 // uninterpreted hash/cipher function (free variables occur only inside UF
 // arguments), and at least one UF is involved.
+// hashDerivedOrConst classifies a map key: every bit from hash/cipher/random outputs
+// (hash), or a constant (konst).
+func (w *World) hashDerivedOrConst(v Value) (hash, konst bool) {
+	var bits []*Term
+	switch x := v.(type) {
+	case Str:
+		if x.tok != nil || x.opq || x.cat != nil {
+			return false, false
+		}
+		if x.b == nil {
+			return false, true
+		}
+		bits = x.b
+	case Array:
+		for _, e := range x {
+			t, ok := e.(*Term)
+			if !ok {
+				return false, false
+			}
+			bits = append(bits, t)
+		}
+	default:
+		return false, false
+	}
+	any := false
+	for _, b := range bits {
+		pure, has := w.ufOnly(b)
+		if !pure {
+			return false, false
+		}
+		any = any || has
+	}
+	return any, !any
+}
+
 func (w *World) hashDerived(v Value) bool {
 	s, ok := v.(Str)
 	if !ok || s.tok != nil || s.opq || s.cat != nil || s.b == nil {
